@@ -102,8 +102,8 @@ def run(ctx: Context) -> None:
         from ..pattern import Matcher
         m = Matcher(ctx, ug)
         size_st = m.stmt('$sizes = numpy.sum(~numpy.ma.getmaskarray($face_node), axis=1)')
-        fn_use = next((n for n in ast.walk(size_st) if isinstance(n, ast.Name) and n.id == m.name('face_node') and isinstance(n.ctx, ast.Load)), None) if size_st is not None else None
-        ok = fn_use is not None and 'face_node_array' in repr(flow.canon(fn_use)) \
+        fn_uses = [n for n in ast.walk(ug.node) if isinstance(n, ast.Name) and n.id == m.name('face_node') and isinstance(n.ctx, ast.Load)] if size_st is not None else []
+        ok = bool(fn_uses) and all('face_node_array' in repr(flow.canon(n)) for n in fn_uses) \
             and m.has('$rows = numpy.flatnonzero($sizes == $size)')
         ctx.check('R06.2', ok, "a face's vertex count is the number of unmasked entries in its row of the face-node table, and faces are grouped by that count", ug, size_st or ug.node)
 
@@ -224,16 +224,22 @@ def run(ctx: Context) -> None:
         ctx.check('R06.3', ok, "corners are a nanmean (missing neighbours are ignored, not propagated)", b2, means[0] if means else b2.node,
                   construct=f"mean: {callee(ctx, b2, means[0]) if means else 'absent'}")
         # sandwiched cells and cells with nan corners
-        sand = {norm_text(n.targets[0]): norm_text(n.value) for n in walk_no_nested(b2.node) if isinstance(n, ast.Assign)
-                and isinstance(n.targets[0], ast.Name) and n.targets[0].id in ('j_bound_by_nan', 'i_bound_by_nan', 'bound_by_nan')}
-        ok = sand == {'j_bound_by_nan': 'j_pad[:-2, :] & j_pad[2:, :]', 'i_bound_by_nan': 'i_pad[:, :-2] & i_pad[:, 2:]',
-                      'bound_by_nan': 'j_bound_by_nan | i_bound_by_nan'}
-        ctx.check('R06.3', ok, "only a centre with missing neighbours on both sides of an axis is discarded", b2, b2.node,
-                  construct=f"sandwich test: {sand}")
-        blank = [n for n in walk_no_nested(b2.node) if isinstance(n, ast.Assign) and norm_text(n.targets[0]) == 'cells_with_nans']
-        ok = bool(blank) and norm_text(blank[0].value) in ('numpy.isnan(bounds).any(axis=2)', 'numpy.isnan(bounds).any(axis=-1)')
-        setn = [n for n in walk_no_nested(b2.node) if isinstance(n, ast.Assign) and norm_text(n.targets[0]) == 'bounds[cells_with_nans]']
-        ok = ok and len(setn) == 1 and norm_text(setn[0].value).endswith('nan')
+        from ..pattern import Matcher
+        mb2 = Matcher(ctx, b2)
+        ok = mb2.has('$nan = numpy.isnan($vals)',
+                     '$jp = numpy.pad($nan, ((1, 1), (0, 0)), constant_values=False)',
+                     '$ip = numpy.pad($nan, ((0, 0), (1, 1)), constant_values=False)')
+        sand_st = None
+        if ok:
+            for alt in ('$vals[$jp[:-2, :] & $jp[2:, :] | $ip[:, :-2] & $ip[:, 2:]] = numpy.nan',
+                        '$vals[$ip[:, :-2] & $ip[:, 2:] | $jp[:-2, :] & $jp[2:, :]] = numpy.nan',
+                        '$vals[$jp[:-2] & $jp[2:] | $ip[:, :-2] & $ip[:, 2:]] = numpy.nan'):
+                sand_st = sand_st or mb2.stmt(alt)
+        ctx.check('R06.3', ok and sand_st is not None, "only a centre with missing neighbours on both sides of an axis is discarded", b2, sand_st or b2.node,
+                  construct=f"sandwich test: {norm_text(sand_st) if sand_st is not None else 'not recognised'}")
+        blank = [mb2.stmt('$cn = numpy.isnan($bounds).any(axis=2)') or mb2.stmt('$cn = numpy.isnan($bounds).any(axis=-1)')]
+        blank = [b_ for b_ in blank if b_ is not None]
+        ok = bool(blank) and mb2.stmt('$bounds[$cn] = numpy.nan') is not None
         ctx.check('R06.3', ok, "a cell with any missing corner gets no polygon (all four corners blanked)", b2, blank[0] if blank else b2.node,
                   construct=f"blanking: {norm_text(blank[0]) if blank else 'absent'}")
         # make_polygons_with_holes skips rows with a non finite coordinate (R02.3 checks the pairing)
